@@ -239,5 +239,7 @@ def run(check, tier):
         check.section(title, st, acc, bounds, tags_required=req)
         cands.extend(acc.candidates)
     check.confirm(cands, make_replay, classify, max_confirm=80)
+    from . import C19b
+    C19b.run(check, tier)
     driver.close_pool()
     realproc.shutdown()
